@@ -214,16 +214,13 @@ where
         for (key, cache) in self.cache.iter() {
             let key_bytes = key.encode_vec();
             let cache_bytes = cache.encode_vec();
-            if cache.is_old(block_number) {
-                #[cfg(feature = "verif")]
-                crate::verif_hooks::before_persistent_write(crate::verif_hooks::Ev::VPut {
-                    table: self.verif_name.clone(),
-                    hist: true,
-                    key: key_bytes.clone(),
-                    val: None,
-                })?;
-                self.cache_db.delete(&key_bytes)?;
-            } else {
+            // The history row and the latest row of a key are two separate writes and the
+            // process can die in between. A recovery reorg reloads the history row when there
+            // is one and rewrites the latest row from it, so: a history that is kept is written
+            // before the latest row; a history that is dropped (too old to be needed) is
+            // deleted only after the latest row has been written.
+            let is_old = cache.is_old(block_number);
+            if !is_old {
                 #[cfg(feature = "verif")]
                 crate::verif_hooks::before_persistent_write(crate::verif_hooks::Ev::VPut {
                     table: self.verif_name.clone(),
@@ -252,6 +249,17 @@ where
                     val: None,
                 })?;
                 self.db.delete(&key_bytes)?;
+            }
+
+            if is_old {
+                #[cfg(feature = "verif")]
+                crate::verif_hooks::before_persistent_write(crate::verif_hooks::Ev::VPut {
+                    table: self.verif_name.clone(),
+                    hist: true,
+                    key: key_bytes.clone(),
+                    val: None,
+                })?;
+                self.cache_db.delete(&key_bytes)?;
             }
         }
 
